@@ -151,6 +151,23 @@ func (c *Chain) ViewsAol(ctx sdk.Context, vo ViewOpts) M {
 				return names, r.Pagination.NextKey, r.Pagination.Total, nil
 			})
 			vWriters = append(vWriters, M{"o": o, "t": t, "lists": lists, "totals": totals, "errs": errs})
+			// writers outside the dictionary (bulk entries are named "?<bech32>"): their single-item view as well
+			seenExtra := map[string]bool{}
+			for _, l := range lists {
+				for _, nm := range l.([]any) {
+					name := nm.(string)
+					if !strings.HasPrefix(name, "?") || seenExtra[name] {
+						continue
+					}
+					seenExtra[name] = true
+					wr, err := k.Writer(g, &aoltypes.QueryWriterRequest{OwnerAddress: c.bech(o), TopicName: conc(topicDict, t), WriterAddress: name[1:]})
+					e := M{"o": o, "t": t, "w": name, "st": errClass(err), "mon": "", "desc": "", "ts": -1}
+					if err == nil && wr.Writer != nil {
+						e["mon"], e["desc"], e["ts"] = wr.Writer.Moniker, wr.Writer.Description, absTime(wr.Writer.NanoTimestamp)
+					}
+					vWriter = append(vWriter, e)
+				}
+			}
 		}
 		lists, totals, errs := distinctScans(vo.FullPaging, func(req *query.PageRequest) ([]string, []byte, uint64, error) {
 			r, err := k.Topics(g, &aoltypes.QueryTopicsRequest{OwnerAddress: c.bech(o), Pagination: req})
@@ -270,6 +287,24 @@ func (c *Chain) ViewsPnft(ctx sdk.Context, vo ViewOpts) M {
 			}
 		}
 		vTokens = append(vTokens, M{"q": d, "st": errClass(err), "items": l})
+		// the single-item view of every LISTED token as well (bulk tokens are not among the names the behaviour mentions)
+		named := map[string]bool{}
+		for _, t := range vo.Tokens {
+			named[t] = true
+		}
+		for _, it := range l {
+			t, _ := it.(M)["id"].(string)
+			if t == "" || named[t] || strings.HasPrefix(t, "?") {
+				continue
+			}
+			named[t] = true
+			r, err := k.PNFT(g, &pnfttypes.QueryPNFTRequest{DenomId: conc(denomDict, d), Id: conc(tokenDict, t)})
+			if err == nil && r.Pnft != nil {
+				e := c.absPnft(r.Pnft)
+				e["qd"], e["qi"] = d, t
+				vToken = append(vToken, e)
+			}
+		}
 		for _, o := range accts {
 			br, err := k.PNFTsByDenomOwner(g, &pnfttypes.QueryPNFTsByDenomOwnerRequest{DenomId: conc(denomDict, d), Owner: c.bech(o)})
 			l := []any{}
